@@ -572,3 +572,46 @@ func ruleEOICYCLE(c *Ctx) {
 	}
 	c.Bad(rule, key, f.Pos(), "generate never checks for a cycle of end-of-input transitions: a pattern such as /a{eoi}*/ compiles, and every scanner built from the tables spins forever at the end of the input")
 }
+
+// UNITS(scan-bytes): tables compiled in bytes mode have one symbol per byte value. Tables.Scan
+// must then classify text[index] and advance by one; decoding a rune is correct only when
+// t.ScanBytes is false. Every call of utf8.DecodeRune* in Scan is governed by the false edge
+// of t.ScanBytes (decoding first and "falling back" for r > 0xff treats the two-byte encodings of
+// U+0080..U+00FF as one symbol).
+func ruleSCANBYTES(c *Ctx) {
+	const rule = "UNITS(scan-bytes)"
+	f := c.SSAFunc("lex", "(*Tables).Scan")
+	if f == nil {
+		c.Lost(rule, "lex.Tables.Scan", "function not found")
+		return
+	}
+	n := 0
+	for _, b := range f.Blocks {
+		for _, ins := range b.Instrs {
+			call, ok := ins.(*ssa.Call)
+			if !ok {
+				continue
+			}
+			g := call.Call.StaticCallee()
+			if g == nil || g.Pkg == nil || g.Pkg.Pkg.Path() != "unicode/utf8" || !strings.HasPrefix(g.Name(), "DecodeRune") {
+				continue
+			}
+			n++
+			key := fmt.Sprintf("lex.Tables.Scan:decode#%d", n)
+			runeMode := false
+			for _, gc := range flattenConds(governing(b)) {
+				if strings.HasSuffix(vpath(gc.V), ".ScanBytes") && !gc.Pol {
+					runeMode = true
+				}
+			}
+			if runeMode {
+				c.Ok(rule, key, call.Pos(), "a rune is decoded only when t.ScanBytes is false")
+			} else {
+				c.Bad(rule, key, call.Pos(), "Scan decodes a rune on a path where t.ScanBytes may be true: in bytes mode every byte is a symbol of its own, a decoded U+0080..U+00FF consumes two bytes as one symbol")
+			}
+		}
+	}
+	if n < 1 {
+		c.Lost(rule, "lex.Tables.Scan:decode", "no utf8.DecodeRune* call found")
+	}
+}
